@@ -414,7 +414,10 @@ def main():
     import multiprocessing as mp
     nproc = req.get("procs", 12)
     # warm up once in the parent (kernels, op registration), so that forked children do not repeat it
-    run_program({"init": {"kind": "QBytes", "qt": "qint8", "axis": "none", "shape": [2, 3]}, "prog": [{"op": "neg"}]}, "float32")
+    try:
+        run_program({"init": {"kind": "QBytes", "qt": "qint8", "axis": "none", "shape": [2, 3]}, "prog": [{"op": "neg"}]}, "float32")
+    except Exception:  # noqa: BLE001  (the programs below report it)
+        pass
     chunks = [jobs[i:i + 64] for i in range(0, len(jobs), 64)]
     if nproc > 1 and len(jobs) > 200:
         with mp.get_context("fork").Pool(nproc) as pool:
